@@ -849,6 +849,10 @@ class TimeDeltaArray(TimeBase):
 
         return NotImplemented
 
+    def __neg__(self):
+        """-self"""
+        return self.from_jds(-self.jd1, -self.jd2, fmt=self.fmt)
+
     def __sub__(self, other):
         """self - other"""
         if self.scale != other.scale:
